@@ -7,7 +7,7 @@ import itertools
 import numpy as np
 
 from vpkit import SubCheck, fail, ok
-from vpkit.training import diverges, make_program, next_batch, reference_loop, tree_close
+from vpkit.training import diverges, make_program, next_batch, quiet, reference_loop, tree_close, verbosity
 
 PROPERTY = "C19"
 LEVEL = "exploration"
@@ -73,7 +73,7 @@ def run_scripts(case):
     import jinns
 
     cfg, ce, L, n_iter = case["cfg"], case["call_every"], case["L"], case["n_iter"]
-    labels = [cfg["kind"], cfg["opt"], f"every{ce}", f"L{L}"]
+    labels = [cfg["kind"], cfg["opt"], f"every{ce}", f"L{L}"] + (["verbose"] if cfg.get("verbose") else [])
     prog = make_program(cfg)
     ref = reference_loop(prog, n_iter)
     fps = [float(fingerprint(p)) for p in ref["params"]]  # fps[i+1] = after iteration i
@@ -82,7 +82,7 @@ def run_scripts(case):
     def run(stops, improves):
         val = Scripted(stops=stops, improves=improves, counter=jnp.zeros((), dtype=jnp.int32), call_every=ce)
         out = jinns.solve(n_iter=n_iter, init_params=prog["params"], data=prog["data"], loss=prog["loss"],
-                          optimizer=prog["optimizer"], validation=val, verbose=False)
+                          optimizer=prog["optimizer"], validation=val, **verbosity(cfg))
         return out[0], out[1], out[7], out[8]
 
     jrun = jax.jit(run)
@@ -92,7 +92,8 @@ def run_scripts(case):
     checked = nt_count = 0
     for sc in scripts:
         stops, improves = list(sc[:L]), list(sc[L:])
-        params, losses, vcrit, best = jrun(jnp.asarray(stops), jnp.asarray(improves))
+        with quiet():
+            params, losses, vcrit, best = jrun(jnp.asarray(stops), jnp.asarray(improves))
         losses, vcrit = np.asarray(losses, dtype=np.float64), np.asarray(vcrit, dtype=np.float64)
         # ---- model
         want_crit = np.zeros(n_iter)
@@ -152,11 +153,14 @@ def enum_scripts(tier):
                 n_iter = (L - 1) * ce + 1 + extra
                 if n_iter > 12:
                     continue
-                case = {"cfg": prog_cfg(kind, var, opt), "call_every": ce, "L": L, "n_iter": n_iter}
+                # solve()'s printing options alternate over the enumeration (they select other loop-exit / printing code)
+                vb = {"verbose": bool((j + extra) % 2), "print_every": [1, 2, 1000][(j + L) % 3]}
+                case = {"cfg": dict(prog_cfg(kind, var, opt), **vb), "call_every": ce, "L": L, "n_iter": n_iter}
                 if tier == "quick" and L == 3:
                     # 64 scripts: split in 2 halves over two programs
                     yield dict(case, subset=list(range(0, 64, 2)))
-                    yield dict(case, cfg=prog_cfg(*progs[(j + 1) % len(progs)]), subset=list(range(1, 64, 2)))
+                    yield dict(case, cfg=dict(prog_cfg(*progs[(j + 1) % len(progs)]), verbose=not vb["verbose"], print_every=1),
+                               subset=list(range(1, 64, 2)))
                 elif L == 4:
                     for b in range(4):
                         yield dict(case, subset=list(range(b * 64, (b + 1) * 64)))
@@ -277,8 +281,11 @@ def run_solve_validation(case):
     vprog = make_program(vcfg)
     val = ValidationLoss(loss=prog["loss"], validation_data=vprog["data"], call_every=ce, early_stopping=vc["early"],
                          patience=vc["patience"])
-    out = jinns.solve(n_iter=n_iter, init_params=prog["params"], data=prog["data"], loss=prog["loss"],
-                      optimizer=prog["optimizer"], validation=val, verbose=False)
+    if cfg.get("verbose"):
+        labels.append("verbose")
+    with quiet():
+        out = jinns.solve(n_iter=n_iter, init_params=prog["params"], data=prog["data"], loss=prog["loss"],
+                          optimizer=prog["optimizer"], validation=val, **verbosity(cfg))
     ref = reference_loop(prog, n_iter)
     if diverges(ref["loss"]):
         return ok(nontrivial=False, labels=labels + ["diverged-skipped"])
